@@ -299,6 +299,124 @@ def unroll_constant_loops(modules, known, rep):
                 rep.other.append(f"loop over {len(elts)} constants at {rel}:{st.lineno} read as its {len(new)} unrolled statement(s)")
 
 
+# ---------------------------------------------------------------------------------------------- N12 table dispatch
+def _plain_enums(modules) -> set:
+    """Enum classes of the package that keep the default (identity) __eq__ / __hash__."""
+    out = set()
+    for mod in modules.values():
+        for c in mod.tree.body:
+            if isinstance(c, ast.ClassDef) and any("Enum" in ast.unparse(b) for b in c.bases):
+                names = {m.name for m in c.body if isinstance(m, FUNC)}
+                bases_plain = all(ast.unparse(b) in ("Enum", "enum.Enum", "IntEnum", "enum.IntEnum") for b in c.bases)
+                if not ({"__eq__", "__hash__"} & names) and bases_plain:
+                    out.add(c.name)
+    return out
+
+
+def _fold_const_test(t):
+    """True / False when the test is decided by constants alone, else None."""
+    if isinstance(t, ast.Constant):
+        return bool(t.value)
+    if isinstance(t, ast.UnaryOp) and isinstance(t.op, ast.Not):
+        v = _fold_const_test(t.operand)
+        return None if v is None else not v
+    if isinstance(t, ast.Compare) and len(t.ops) == 1 and isinstance(t.left, ast.Constant) and isinstance(t.comparators[0], ast.Constant):
+        a, b, op = t.left.value, t.comparators[0].value, t.ops[0]
+        if isinstance(op, ast.Is):
+            return a is b if (a is None or b is None) else None
+        if isinstance(op, ast.IsNot):
+            return a is not b if (a is None or b is None) else None
+        if isinstance(op, ast.Eq):
+            return a == b
+        if isinstance(op, ast.NotEq):
+            return a != b
+    return None
+
+
+def _simplify(stmts):
+    out = []
+    for st in stmts:
+        if isinstance(st, ast.If):
+            v = _fold_const_test(st.test)
+            if v is True:
+                out.extend(_simplify(st.body))
+                continue
+            if v is False:
+                out.extend(_simplify(st.orelse))
+                continue
+            st.body = _simplify(st.body) or [ast.copy_location(ast.Pass(), st)]
+            st.orelse = _simplify(st.orelse)
+        out.append(st)
+    return out
+
+
+def expand_table_dispatch(modules, known, rep):
+    """fresh `v = {K1: c1, K2: c2}.get(x)` (or `[x]`) with plain-enum / constant keys and constant values, v used only in
+    the statements that follow in the same block: read as `if x == K1: <those statements with v := c1> elif ...`."""
+    plain = _plain_enums(modules)
+    for rel, sc, fn in all_functions(modules):
+        kh = _known_hashes(known, rel, sc, fn)
+        if kh is None:
+            continue
+        for owner, fld, stmts in list(_blocks(fn)):
+            for i, st in enumerate(stmts):
+                if not (isinstance(st, ast.Assign) and len(st.targets) == 1 and isinstance(st.targets[0], ast.Name) and _is_fresh(st, fn, kh)):
+                    continue
+                v = st.targets[0].id
+                val = st.value
+                table = x = None
+                default = ast.Constant(None)
+                sub = False
+                if isinstance(val, ast.Call) and isinstance(val.func, ast.Attribute) and val.func.attr == "get" and isinstance(val.func.value, ast.Dict) \
+                        and 1 <= len(val.args) <= 2 and not val.keywords:
+                    table, x = val.func.value, val.args[0]
+                    if len(val.args) == 2:
+                        default = val.args[1]
+                elif isinstance(val, ast.Subscript) and isinstance(val.value, ast.Dict):
+                    table, x, sub = val.value, val.slice, True
+                if table is None or not _simple_subject(x) or not isinstance(default, ast.Constant):
+                    continue
+                keys_ok = all(k is not None and (isinstance(k, ast.Constant) or (isinstance(k, ast.Attribute) and isinstance(k.value, ast.Name) and k.value.id in plain)) for k in table.keys)
+                if not keys_ok or not all(isinstance(c, ast.Constant) for c in table.values) or not table.keys:
+                    continue
+                if any(isinstance(k, ast.Constant) for k in table.keys):
+                    continue  # constant keys: the subject's own __eq__/__hash__ may be custom, dict lookup and == can differ
+                uses_in = lambda node: sum(1 for n in ast.walk(node) if isinstance(n, ast.Name) and n.id == v)  # noqa: E731
+                total = uses_in(fn)
+                j = i
+                for k2 in range(i + 1, len(stmts)):
+                    if uses_in(stmts[k2]):
+                        j = k2
+                inside = sum(uses_in(s2) for s2 in stmts[i:j + 1])
+                if j == i or inside != total:
+                    continue
+                if any(isinstance(n, ast.Name) and n.id == v and isinstance(n.ctx, (ast.Store, ast.Del)) for s2 in stmts[i + 1:j + 1] for n in ast.walk(s2)):
+                    continue
+                xnames = {n.id for n in ast.walk(x) if isinstance(n, ast.Name)}
+                if any(isinstance(n, ast.Name) and n.id in xnames and isinstance(n.ctx, ast.Store) for s2 in stmts[i + 1:j + 1] for n in ast.walk(s2)):
+                    continue
+                tail = stmts[i + 1:j + 1]
+
+                def arm(c):
+                    class S(ast.NodeTransformer):
+                        def visit_Name(self, node):
+                            if node.id == v and isinstance(node.ctx, ast.Load):
+                                return ast.copy_location(copy.deepcopy(c), node)
+                            return node
+                    body = [S().visit(copy.deepcopy(t)) for t in tail]
+                    return _simplify(body) or [ast.copy_location(ast.Pass(), st)]
+                node = arm(default) if not sub else [ast.copy_location(ast.Raise(ast.Call(ast.Name("KeyError", ast.Load()), [copy.deepcopy(x)], []), None), st)]
+                for k, c in reversed(list(zip(table.keys, table.values))):
+                    test = ast.Compare(copy.deepcopy(x), [ast.Eq()], [copy.deepcopy(k)])
+                    new = ast.copy_location(ast.If(test, arm(c), node), st)
+                    node = [new]
+                for n in node:
+                    ast.fix_missing_locations(n)
+                stmts[i:j + 1] = node
+                rep.other.append(f"table dispatch `{v} = {{...}}` at {rel}:{st.lineno} read as an if/elif chain over its {len(table.keys)} keys")
+                break
+
+
 # ---------------------------------------------------------------------------------------------- N5 / N6 fresh locals
 def _class_attr_stores(modules):
     """class -> method -> set of self-attributes stored; class -> method -> set of self-methods called."""
